@@ -966,4 +966,88 @@ theorem evalStmts_floor {env : VEnv} {store : Store} {stmts : List Stmt} {F : Fu
   obtain ⟨_, hF, _⟩ := this
   exact hF
 
+/-! ### the fallback account of a source is always an unbounded occurrence -/
+
+mutual
+/-- `withdrawAlways` is only ever applied to the fallback account a source reports, and a source reports one
+only for an occurrence that is the literal `@world` or carries `allowing unbounded overdraft` (`od = none`),
+in the asset of the funding -/
+theorem evalSource_fb (env : VEnv) (asset : Asset) : (s : Source) → (b b' : Bal) → (f : Fund) → (fb : Option Acct) →
+    evalSource env asset s b = .ok (f, fb, b') → ∀ w, fb = some w →
+    ∃ o ∈ sourceOcc env asset s, o.acct = w ∧ o.asset = f.asset ∧ o.od = none
+  | .acct e od, b, b', f, fb, h, w, hw => by
+    obtain ⟨a, oa, o, unb, p, ha, hv, _, rfl, rfl⟩ := evalSource_acct_inv h
+    by_cases hu : (isWorldLit e || unb) = true
+    · simp only [hu, if_true, Option.some.injEq] at hw
+      subst hw
+      exact ⟨⟨a, oa, none⟩, by simp [sourceOcc, ha, hv, hu], rfl, rfl, rfl⟩
+    · simp [hu] at hw
+  | .maxed cap s, b, b', f, fb, h, w, hw => by
+    obtain ⟨_, _, _, _, _, _, _, _, _, rfl, _⟩ := evalSource_maxed_inv h
+    cases hw
+  | .inorder ss, b, b', f, fb, h, w, hw => by
+    obtain ⟨fs, hs, hasm⟩ := evalSource_inorder_inv h
+    obtain ⟨⟨l, hl, hla⟩, _, _⟩ := assemble_ok hasm
+    obtain ⟨o, ho, h1, h2, h3⟩ := evalSources_fb env asset ss b b' fs fb hs w hw l hl
+    exact ⟨o, by simpa [sourceOcc] using ho, h1, by rw [h2, hla], h3⟩
+theorem evalSources_fb (env : VEnv) (asset : Asset) : (ss : SourceList) → (b b' : Bal) → (fs : List Fund) →
+    (fb : Option Acct) → evalSources env asset ss b = .ok (fs, fb, b') → ∀ w, fb = some w →
+    ∀ l, fs.getLast? = some l → ∃ o ∈ sourcesOcc env asset ss, o.acct = w ∧ o.asset = l.asset ∧ o.od = none
+  | .nil, b, b', fs, fb, h, w, hw => by
+    obtain ⟨_, rfl, _⟩ := evalSources_nil_inv h
+    cases hw
+  | .cons s rest, b, b', fs, fb, h, w, hw => by
+    obtain ⟨f, fb1, b1, fs', fb2, hs, hr, rfl, rfl⟩ := evalSources_cons_inv h
+    intro l hl
+    cases rest with
+    | nil =>
+      obtain ⟨rfl, _, _⟩ := evalSources_nil_inv hr
+      simp only [List.getLast?_singleton, Option.some.injEq] at hl
+      subst hl
+      obtain ⟨o, ho, h1⟩ := evalSource_fb env asset s b b1 f fb1 hs w hw
+      exact ⟨o, by simp only [sourcesOcc, List.mem_append]; exact Or.inl ho, h1⟩
+    | cons s2 rest2 =>
+      obtain ⟨f2, _, _, fs2, _, _, _, rfl, _⟩ := evalSources_cons_inv hr
+      rw [List.getLast?_cons_cons] at hl
+      obtain ⟨o, ho, h1⟩ := evalSources_fb env asset (.cons s2 rest2) b1 b' (f2 :: fs2) fb2 hr w hw l hl
+      exact ⟨o, by simp only [sourcesOcc, List.mem_append] at ho ⊢; exact Or.inr ho, h1⟩
+end
+
+/-! ### sources that cannot cover a send -/
+
+/-- a bounded source whose funding holds less than the amount: `insufficient funds` -/
+theorem takeFromSource_short {f : Fund} {ma : Asset} {mn : Int} (b : Bal) (hf : NonNeg f.parts) (ha : f.asset = ma)
+    (hlt : total f.parts < mn) : takeFromSource none f ma mn b = .error .insufficient := by
+  simp only [takeFromSource, ha, ne_eq, not_true_eq_false, if_false]
+  cases ht : take f.parts mn with
+  | none => rfl
+  | some tr =>
+    have := (take_isSome_iff f.parts mn hf).mp (by rw [ht]; rfl)
+    omega
+
+theorem evalSend_short {env : VEnv} {e : Expr} {s : Source} {d : Dest} {st : St} {a ma : Asset} {mn : Int}
+    {f : Fund} {b1 : Bal} (hl : leftAsset env e = .ok a) (hs : evalSource env a s st.bal = .ok (f, none, b1))
+    (hm : evalMon env e = .ok (ma, mn)) (ha : f.asset = ma) (hlt : total f.parts < mn) :
+    evalSend env (.mon e) (.src s) d st = .error .insufficient := by
+  have hf := evalSource_nonneg env a s st.bal f none b1 hs
+  simp only [evalSend, hl, hs, hm, takeFromSource_short b1 hf ha hlt]
+
+theorem evalStmts_error_at {env : VEnv} {s : Stmt} {post : List Stmt} {er : Err} :
+    (pre : List Stmt) → (F0 F : Full) → evalStmts env pre F0 = .ok F → evalStmt env s F = .error er →
+    evalStmts env (pre ++ s :: post) F0 = .error er
+  | [], F0, F, h, hs => by
+    simp only [evalStmts, Except.ok.injEq] at h
+    subst h
+    simp only [List.nil_append, evalStmts, hs]
+  | q :: pre, F0, F, h, hs => by
+    obtain ⟨F1, h1, h2⟩ := evalStmts_cons_inv h
+    simp only [List.cons_append, evalStmts, h1]
+    exact evalStmts_error_at pre F1 F h2 hs
+
+theorem run_error {P : Script} {req : Request} {store : Store} {env : VEnv} {er : Err}
+    (hp : prepare P req store = .ok env) (hc : checkBalanceVars env P.vars = .ok ())
+    (he : evalStmts env P.stmts { st := { bal := initBal store (needed env P.stmts), postings := [] } } = .error er) :
+    run P req store = .error er := by
+  simp only [run, hp, hc, he]
+
 end Num
